@@ -21,7 +21,7 @@ func (x *Exec) violation(kind, label, where string) {
 	if len(x.knownOn) > 0 {
 		known = x.knownOn[len(x.knownOn)-1]
 	}
-	v := Violation{Kind: kind, Label: label, Known: known, Where: where, Prefix: append([]int{}, x.decisions...)}
+	v := Violation{Kind: kind, Label: label, Known: known, Where: where, Prefix: append([]int{}, x.decisions...), Slow: x.timerFired}
 	v.Trace = x.modelTrace("")
 	x.viol = append(x.viol, v)
 }
@@ -179,7 +179,7 @@ func (x *Exec) intrinsic(fn *ssa.Function, args []Val, site string) Val {
 			if len(x.knownOn) > 0 {
 				known = x.knownOn[len(x.knownOn)-1]
 			}
-			v := Violation{Kind: "assert", Label: l, Known: known, Where: site, Prefix: append([]int{}, x.decisions...)}
+			v := Violation{Kind: "assert", Label: l, Known: known, Where: site, Prefix: append([]int{}, x.decisions...), Slow: x.timerFired}
 			v.Trace = x.modelTrace(neg)
 			x.viol = append(x.viol, v)
 			// continue on the side where it holds, if any
@@ -202,9 +202,11 @@ func (x *Exec) intrinsic(fn *ssa.Function, args []Val, site string) Val {
 		return cbool(false)
 	case "Catch":
 		return x.catch(args[0].(FuncV))
-	case "Gate", "Barrier":
+	case "Gate", "Barrier", "Slow":
 		x.mainGor()
 		x.yield()
+		return nil
+	case "ReleaseSlow":
 		return nil
 	case "Perm":
 		n := x.concInt(args[0], "Perm size")
@@ -593,6 +595,14 @@ func (x *Exec) stub(fn *ssa.Function, args []Val, site string) (Val, bool) {
 		}
 		x.stubsUsed["os.ReadFile (file p contains \"F:\"+p)"] = true
 		return TupleV{x.convert(cstr("F:"+p), types.Typ[types.String], types.NewSlice(types.Typ[types.Byte])), IfaceV{}}, true
+	case "time.After":
+		// environment stub: time is adversarial - the timer's channel may deliver at any moment
+		x.stubsUsed["time.After/NewTimer (the timer may fire at any moment)"] = true
+		return &ChanV{cap: 1, timer: true, cvc: vclock{}}, true
+	case "time.Sleep":
+		x.mainGor()
+		x.yield()
+		return nil, true
 	case "os.Exit":
 		panic(abortPath{"os.Exit"})
 	case "path.Join":
